@@ -92,7 +92,8 @@ func encAcls(d *asaDev) string {
 		parts := []string{a}
 		for _, l := range d.ACLs[a] {
 			p := parsedBody(l)
-			parts = append(parts, p+"~"+logRX.ReplaceAllLiteralString(p, "")+"~"+strings.Join(refsOf(l), ","))
+			split := func(x string) string { return strings.Join(strings.Split(x, "$REF"), "^") }
+			parts = append(parts, split(p)+"~"+split(logRX.ReplaceAllLiteralString(p, ""))+"~"+strings.Join(refsOf(l), ","))
 		}
 		out = append(out, strings.Join(parts, "#"))
 	}
@@ -284,7 +285,7 @@ func genTarget(r *RNG) *asaDev {
 		b.ACLs[name] = dedupBodies(ls)
 		b.AOrder = append(b.AOrder, name)
 		b.bind("in "+in, name)
-		if r.Chance(15) {
+		if r.Chance(25) {
 			// outgoing ACL: its own, or the one bound inbound somewhere (shared target ACL)
 			if r.Chance(50) {
 				b.bind("out "+in, Pick(r, b.AOrder))
@@ -512,14 +513,25 @@ func genDevice(r *RNG, b *asaDev) (*asaDev, []string) {
 				}
 				say("device-shares-acl")
 			}
-		case k < 88:
+		case k < 87 && len(a.BOrder) > 0:
+			// the device binds the ACL in the other direction
+			key := Pick(r, a.BOrder)
+			dir, intf, _ := strings.Cut(key, " ")
+			other := map[string]string{"in": "out", "out": "in"}[dir] + " " + intf
+			if _, ok := a.Bind[other]; !ok {
+				name := a.Bind[key]
+				a.unbind(key)
+				a.bind(other, name)
+				say("binding-direction-flipped")
+			}
+		case k < 89:
 			n := fmt.Sprintf("left-DRC-%d", r.Intn(3))
 			if _, ok := a.Groups[n]; !ok {
 				a.Groups[n] = []string{Pick(r, members)}
 				a.GOrder = append(a.GOrder, n)
 				say("leftover-group")
 			}
-		case k < 91:
+		case k < 92:
 			n := fmt.Sprintf("oldacl-DRC-%d", r.Intn(2))
 			if _, ok := a.ACLs[n]; !ok {
 				body := "permit ip any4 any4"
@@ -537,10 +549,10 @@ func genDevice(r *RNG, b *asaDev) (*asaDev, []string) {
 				f[3] = Pick(r, []string{"192.168.1.1", "192.168.1.2", "10.0.0.1", "10.0.0.2"})
 				a.Routes[i] = strings.Join(f, " ")
 				say("route-change-gw")
-			} else if len(a.Routes) > 0 {
+			} else if len(a.Routes) > 0 && r.Chance(50) {
 				a.Routes = a.Routes[1:]
 				say("route-missing")
-			} else if len(b.Routes) > 0 {
+			} else if len(b.Routes) > 0 && !strings.Contains(strings.Join(a.Routes, ","), " 10.8.0.0 ") {
 				a.Routes = append(a.Routes, a.Intfs[0][1]+" 10.8.0.0 255.255.0.0 10.0.0.1")
 				say("route-extra")
 			}
@@ -783,11 +795,12 @@ func run(ctx *Ctx) *Result {
 	defer drv.Close()
 
 	// correspond compares the model with drc on one pair; returns the real script (nil if drc refused) and ok.
-	correspond := func(stream string, c cfgCase, a, b *asaDev, devText, spocText string) (cmds []string, out string, ok bool) {
+	// verdict: "ok" (model and drc agree on a script), "disagree", "refused" (drc exits non-zero), "panic"
+	correspond := func(stream string, c cfgCase, a, b *asaDev, devText, spocText string) (cmds []string, out string, verdict string) {
 		out, errOut, status, pan := runDrc(devText, spocText)
 		if pan != "" {
 			res.Fail(map[string]any{"pred": "drc_panic"}, "panic: "+pan, c)
-			return nil, "", false
+			return nil, "", "panic"
 		}
 		f := fields(drv.Ask(encode(a, b)))
 		if status != 0 {
@@ -796,21 +809,21 @@ func run(ctx *Ctx) *Result {
 			if f["rej"] != "1" {
 				res.Disagree(stream+": drc refuses, model does not", c, errOut, f["script"])
 			}
-			return nil, "", false
+			return nil, "", "refused"
 		}
 		res.TracesVsImpl++
 		if f["rej"] != "0" {
 			res.Disagree(stream+": model refuses, drc does not", c, out, JSONStr(f))
-			return nil, out, false
+			return splitScript(out), out, "disagree"
 		}
 		if f["valid"] != "1" {
 			res.Disagree(stream+": Myers script passed to the model is not a valid script", c, "", "valid="+f["valid"])
-			return nil, out, false
+			return splitScript(out), out, "disagree"
 		}
 		real := strings.Join(strings.Split(strings.TrimSuffix(out, "\n"), "\n"), "|")
 		if real != f["script"] {
 			res.Disagree(stream+": change script (drc vs model)", c, real, f["script"])
-			return splitScript(out), out, false
+			return splitScript(out), out, "disagree"
 		}
 		if f["hits"] != "" {
 			for _, h := range strings.Split(f["hits"], ",") {
@@ -861,7 +874,7 @@ func run(ctx *Ctx) *Result {
 				res.Disagree(stream+": left-overs (dev.go vs Lean port)", c, lo, f["left"])
 			}
 		}
-		return cmds, out, true
+		return cmds, out, "ok"
 	}
 
 	runCase := func(c cfgCase) {
@@ -869,8 +882,8 @@ func run(ctx *Ctx) *Result {
 			c.dev, c.spoc = parseDev(c.Dev), parseDev(c.Spoc)
 		}
 		canon := c.Dev + "--\n" + c.Spoc
-		cmds, out, ok := correspond("F1", c, c.dev, c.spoc, c.Dev, c.Spoc)
-		if cmds == nil && !ok && out == "" {
+		cmds, out, verdict := correspond("F1", c, c.dev, c.spoc, c.Dev, c.Spoc)
+		if verdict == "refused" || verdict == "panic" {
 			res.Eval(canon, false)
 			return
 		}
@@ -943,11 +956,10 @@ func run(ctx *Ctx) *Result {
 			if lo := leftovers(final); len(lo) > 0 {
 				res.Fail(sig("leftover_generated_object"), "unreferenced generated objects remain: "+strings.Join(lo, ", "), c)
 			}
-			cmds2, out2, ok2 := correspond("F1 second compare", c, final, c.spoc, final.print(true), c.Spoc)
-			if out2 == "" && !ok2 && cmds2 == nil && len(res.Failures) == 0 {
-				// drc refused or panicked on the executed result
-			}
-			if strings.TrimSpace(out2) != "" {
+			_, out2, v2 := correspond("F1 second compare", c, final, c.spoc, final.print(true), c.Spoc)
+			if v2 == "refused" {
+				res.Fail(sig("second_compare_failed"), "drc refuses the executed result", c)
+			} else if strings.TrimSpace(out2) != "" {
 				res.Fail(sig("second_compare_not_empty"), "second compare reports changes:\n"+out2, c)
 			}
 			if len(cmds) == 0 && c.dev.managedView(bindings, withRoutes) != wantView {
@@ -962,8 +974,11 @@ func run(ctx *Ctx) *Result {
 		if prop == "C10" {
 			for k, st := range states[:max(len(states)-1, 0)] {
 				res.Count("resume-cuts")
-				cmds2, out2, _ := correspond("F1 resume", c, st, c.spoc, st.print(true), c.Spoc)
-				if cmds2 == nil && out2 == "" {
+				cmds2, _, v2 := correspond("F1 resume", c, st, c.spoc, st.print(true), c.Spoc)
+				if v2 == "panic" {
+					continue
+				}
+				if v2 == "refused" {
 					res.Fail(sig("resume_state_not_accepted"), fmt.Sprintf("cut after %d commands: drc rejects the intermediate device", k+1), c)
 					continue
 				}
